@@ -274,12 +274,12 @@ def routing_programs(tier, seed):
 def misuse_programs(tier, seed):
     """C17: wrong output lengths at every function / derivative position"""
     progs = []
-    for flen in ("-1", "+1", "0"):
+    for flen in ("-1", "+1", "0", "1", "x2"):
         progs.append(_prog(["a", "b"], [_func(["a"], flen=flen), _func(["b", "a"])]))
         progs.append(_prog(["a", "b"], [_func(["a"]), "I~" + flen, _func(["b"])]))
         progs.append(_prog(["a", "b"], [_func(["b", "a"], ["a~" + flen, "b"]), "I"]))
         progs.append(_prog(["a", "b", "c"], [_func(["a"]), _func(["c", "b"], ["b", "c~" + flen])]))
-    return [("routing", dict(prog=p, expect_ok=1, n=(3 if i % 2 else 2))) for i, p in enumerate(progs)]
+    return [("routing", dict(prog=p, expect_ok=1, n=(3, 2, 4)[i % 3])) for i, p in enumerate(progs)]
 
 
 def reference_verdict(prog):
